@@ -2,6 +2,7 @@ import PdeVerif.Json
 import PdeVerif.Model.Grid
 import PdeVerif.Model.Volume
 import PdeVerif.Model.GridCoords
+import PdeVerif.Model.GridCtor
 /-
 Driver of the C12 model: every handler evaluates the definitions of `PdeVerif.Grids` (the ones
 the theorems of `Props/C12.lean` are about) at `Rat`.
@@ -26,8 +27,7 @@ def clsName : GridClass → String
   | .unit => "unit" | .cartesian => "cartesian" | .polar => "polar"
   | .spherical => "spherical" | .cylindrical => "cylindrical"
 
-def getGrid (j : Json) : Except String (Grid Rat) := do
-  let g ← fld j "grid"
+def legacyGrid (g : Json) : Except String (Grid Rat) := do
   let cls ← parseCls (← fldS g "cls")
   let lo ← fldQs g "lo"
   let hi ← fldQs g "hi"
@@ -37,6 +37,45 @@ def getGrid (j : Json) : Except String (Grid Rat) := do
     throw "grid: lo/hi/n/periodic differ in length"
   let axes := (lo.zip (hi.zip (n.zip per))).map fun (l, h, k, p) => (⟨l, h, k, p⟩ : Axis Rat)
   pure ⟨cls, axes⟩
+
+def getRadius (g : Json) : Except String (Radius Rat) := do
+  match (← fldQs g "radius") with
+  | [r] => pure (.outer r)
+  | [a, b] => pure (.pair a b)
+  | _ => throw "radius: one or two numbers expected"
+
+/-- constructor arguments: {"ctor": "unit|cartesian|polar|spherical|cylindrical", "shape":[..],
+"periodic":[..], "bounds":[[lo,hi]..] (cartesian), "radius":[r]|[ri,ro], "bounds_z":[lo,hi]} -/
+def getCtor (g : Json) : Except String (Ctor Rat) := do
+  let cls ← fldS g "ctor"
+  let shape ← fldNs g "shape"
+  match cls with
+  | "unit" => pure (.unit shape (← getL getB (← fld g "periodic")))
+  | "cartesian" => do
+    let b ← getL (getL getQ) (← fld g "bounds")
+    let bounds ← b.mapM fun (x : List Rat) => match x with
+      | [l, h] => pure (l, h)
+      | _ => throw "bounds: pairs expected"
+    pure (.cartesian bounds shape (← getL getB (← fld g "periodic")))
+  | "polar" => do pure (.polar (← getRadius g) shape)
+  | "spherical" => do pure (.spherical (← getRadius g) shape)
+  | "cylindrical" => do
+    match (← fldQs g "bounds_z") with
+    | [zl, zh] => pure (.cylindrical (← getRadius g) zl zh shape ((← getL getB (← fld g "periodic")).getLastD false))
+    | _ => throw "bounds_z: two numbers expected"
+  | _ => throw s!"unknown grid class {cls}"
+
+/-- the grid of a request: constructor arguments go through `Grid.construct` (the model of the
+constructors); the explicit axis form is kept for replay files written before -/
+def getGrid (j : Json) : Except String (Grid Rat) := do
+  let g ← fld j "grid"
+  match fldOpt g "ctor" with
+  | some _ =>
+    match Grid.construct (← getCtor g) with
+    | .ok gr => pure gr
+    | .error .value => throw "constructor: ValueError"
+    | .error .dimension => throw "constructor: DimensionError"
+  | none => legacyGrid g
 
 def jGrid (g : Grid Rat) : Json :=
   Json.mkObj [("cls", Json.str (clsName g.cls)), ("lo", jQs (g.axes.map (·.lo))),
@@ -72,7 +111,15 @@ def geometry (j : Json) : Except String Json := do
     ("voldata", jPts (vd.map fun a => (List.range a.n).map a.vol)),
     ("cellvols", jQs ((multiIndices g.shape).map (g.cellVolume pi))),
     ("volume", jQ (g.volume pi)),
-    ("dim", toJson g.dim)]
+    ("dim", toJson g.dim),
+    ("grid", jGrid g)]
+
+/-- {"grid": constructor arguments} -> the constructed grid or "error:value" / "error:dimension" -/
+def construct (j : Json) : Except String Json := do
+  match Grid.construct (← getCtor (← fld j "grid")) with
+  | .ok g => pure (Json.mkObj [("grid", jGrid g), ("dim", toJson g.dim), ("dx", jQs g.discretization)])
+  | .error .value => pure (Json.str "error:value")
+  | .error .dimension => pure (Json.str "error:dimension")
 
 /-- {"lo":[..],"hi":[..]} -> corners of the cuboid built by `Cuboid.from_bounds` -/
 def cuboid (j : Json) : Except String Json := do
@@ -150,22 +197,15 @@ def points (j : Json) : Except String Json := do
     -- {"b": boundary distance, "us": [[u per axis]..]} -> points
     let b ← fldQ j "b"
     let us ← getPts j "us"
-    pure <| jPts (us.map fun u => g.axes.zipWith (fun a ui => randomCoord a.lo a.hi b ui) u)
+    pure <| jPts (us.map (g.randomPointCart b))
   | "random_radial" =>
     -- {"b","avoid","us":[[u_r(, u_z)]..]} -> [r^dim draw (, z)] with dim = 2 for cylinders
     let b ← fldQ j "b"
     let avoid ← fldB j "avoid"
     let us ← getPts j "us"
-    match g.cls, g.axes with
-    | .polar, [a] | .spherical, [a] =>
-      let (rmin, rmax) := randomRadialBounds a.lo a.hi b avoid
-      let pw := fun (x : Rat) => if g.dim = 2 then x * x else x * x * x
-      pure <| jPts (us.map fun u => [uniformDraw (pw rmin) (pw rmax) (u.headD 0)])
-    | .cylindrical, [a, z] =>
-      let (rmin, rmax) := randomRadialBounds a.lo a.hi b avoid
-      pure <| jPts (us.map fun u => [uniformDraw (rmin * rmin) (rmax * rmax) (u.headD 0),
-        uniformDraw (z.lo + b) (z.hi - b) (u.tail.headD 0)])
-    | _, _ => throw "random_radial: not a radial grid"
+    match g.cls with
+    | .polar | .spherical | .cylindrical => pure <| jPts (us.map (g.randomRadialDraw b avoid))
+    | _ => throw "random_radial: not a radial grid"
   | _ => throw s!"unknown op {op}"
 
 /-- {"system":"polar|spherical|cylindrical","r","cp","sp","ct","st","z"} -> `_pos_to_cart` with the
@@ -182,6 +222,6 @@ def tocart (j : Json) : Except String Json := do
   | _ => throw s!"unknown coordinate system {sys}"
 
 def handlers : List (String × Handler) :=
-  [("c12.geometry", geometry), ("c12.tocart", tocart), ("c12.cuboid", cuboid), ("c12.integrate", integrateH),
+  [("c12.geometry", geometry), ("c12.construct", construct), ("c12.tocart", tocart), ("c12.cuboid", cuboid), ("c12.integrate", integrateH),
    ("c12.project", projectH), ("c12.points", points)]
 end PdeVerif.Drv.C12
